@@ -3,7 +3,7 @@ from vf.core import Gen
 
 META = dict(
     functions_encoded=["pydra.engine.workflow.Workflow.construct (exact and superset-of-lazy cache hits, deepcopy)", "Workflow.clear_cache",
-                       "pydra.compose.workflow.WorkflowTask.construct", "Workflow._create_graph / execution_graph (run operations)",
+                       "pydra.compose.workflow.WorkflowTask.construct (per-object memo, re-assigned inputs)", "Workflow._create_graph / execution_graph (run operations)",
                        "pydra.engine.node.Node"],
     stubs=["vf/engine.py (run operations)", "the fresh construction used as oracle runs with an empty construction cache swapped in"],
     outside=["histories longer than 4 operations", "more than two workflow inputs", "workflows with splitters"],
@@ -44,8 +44,14 @@ def build(tier, seed, exclude):
         err = EN.c30([(k, a, b), (k, b, a), (4, a, b), (4, b, a)])
         return T.fail(err) if err else True
     """, timeout=to)
+    # one task object used repeatedly with re-assigned inputs (the per-object construction memo)
+    g.cond("h_reassigned_inputs", "k1: int, k2: int, k3: int, a1: int, b1: int, a2: int, b2: int", ["5 <= k1 <= 6 and 4 <= k2 <= 6 and 5 <= k3 <= 6 and 1 <= a1 <= 2 and 1 <= b1 <= 2 and 1 <= a2 <= 2 and 1 <= b2 <= 2"], """
+        k1, k2, k3, a1, b1, a2, b2 = T.real((k1, k2, k3, a1, b1, a2, b2))
+        err = EN.c30([(k1, a1, b1), (k2, a2, b2), (k3, a2, b1)])
+        return T.fail(err) if err else True
+    """, timeout=to)
     g.cond("twin_c30", "a: int", ["1 <= a <= 2"], """
         err = EN.c30([(0, T.real(a), 1)])
         return False
     """, timeout=60, kind="twin")
-    return g.spec(bounds={"history length": L, "operations": "construct with lazy subset of {a, b} / run", "values": "1..3"})
+    return g.spec(bounds={"history length": L, "operations": "construct with lazy subset of {a, b} / run / construct or run one task object after re-assigning its inputs", "values": "1..3"})
